@@ -116,13 +116,18 @@ pub fn retire_probe(addr: usize) {
             } else {
                 format!("retired by {}()", opname)
             };
-            errs.push(format!(
+            let msg = format!(
                 "at clock {} thread {:?} retired an object that is still reachable from the map ({}; {}); a reader that pins a guard after this instant can still find it, and seize no longer counts that reader",
                 sched::now(),
                 sched::sim_id(),
                 how,
                 whence
-            ));
+            );
+            if std::env::var("VERIF_RETIRE_TRACE").is_ok() {
+                // (a crash later in the run would take the report with it)
+                eprintln!("RETIRE {}", msg);
+            }
+            errs.push(msg);
         }
     }
 }
